@@ -632,3 +632,118 @@ func init() {
 		return map[string]func() string{"WriteSets.lean": x.genPurity}
 	})
 }
+
+// Stores into package-level variables (C12): every assignment, increment, map or slice element store,
+// or append whose target is rooted at a variable declared at package level, in any function or method
+// (also inside function literals).  A package whose functions keep no state between calls has none,
+// apart from the ones that install defaults.
+func (x *Extractor) genGlobalWrites() string {
+	pkgVar := func(e ast.Expr) *types.Var {
+		for {
+			switch v := e.(type) {
+			case *ast.Ident:
+				o := x.info.Uses[v]
+				if o == nil {
+					o = x.info.Defs[v]
+				}
+				if vr, ok := o.(*types.Var); ok && vr.Parent() == vr.Pkg().Scope() {
+					return vr
+				}
+				return nil
+			case *ast.SelectorExpr:
+				e = v.X
+			case *ast.IndexExpr:
+				e = v.X
+			case *ast.StarExpr:
+				e = v.X
+			case *ast.ParenExpr:
+				e = v.X
+			default:
+				return nil
+			}
+		}
+	}
+	var keys []string
+	for k := range x.funcs {
+		keys = append(keys, k)
+	}
+	sort.Strings(keys)
+	seen := map[string]bool{}
+	var lines []string
+	for _, k := range keys {
+		fd := x.funcs[k]
+		if fd.Body == nil {
+			continue
+		}
+		add := func(v *types.Var, how string) {
+			if v == nil {
+				return
+			}
+			key := k + "|" + v.Name() + "|" + how
+			if !seen[key] {
+				seen[key] = true
+				lines = append(lines, fmt.Sprintf("  (%s, %s, %s)", lstr(k), lstr(v.Name()), lstr(how)))
+			}
+		}
+		ast.Inspect(fd.Body, func(n ast.Node) bool {
+			switch s := n.(type) {
+			case *ast.AssignStmt:
+				for _, l := range s.Lhs {
+					add(pkgVar(l), "assign")
+				}
+			case *ast.IncDecStmt:
+				add(pkgVar(s.X), "incdec")
+			case *ast.CallExpr:
+				if id, ok := s.Fun.(*ast.Ident); ok && (id.Name == "delete" || id.Name == "clear") && len(s.Args) > 0 {
+					add(pkgVar(s.Args[0]), id.Name)
+				}
+				// a method with a pointer receiver called on a package-level variable (Store, Put, Lock, Do…)
+				if sel, ok := s.Fun.(*ast.SelectorExpr); ok {
+					if v := pkgVar(sel.X); v != nil {
+						if selInfo := x.info.Selections[sel]; selInfo != nil && selInfo.Kind() == types.MethodVal {
+							if fn, ok := selInfo.Obj().(*types.Func); ok {
+								if sig, ok := fn.Type().(*types.Signature); ok && sig.Recv() != nil {
+									if _, ptr := sig.Recv().Type().(*types.Pointer); ptr {
+										add(v, "call:"+sel.Sel.Name)
+									}
+								}
+							}
+						}
+					}
+				}
+			}
+			return true
+		})
+	}
+	var sb strings.Builder
+	sb.WriteString(header)
+	sb.WriteString("namespace APModel.Generated\n\n/-- every store into (or method call on) a package-level variable: (function, variable, how) -/\ndef globalWrites : List (String × String × String) := [\n")
+	sb.WriteString(strings.Join(lines, ",\n"))
+	sb.WriteString("\n]\n\nend APModel.Generated\n")
+	return sb.String()
+}
+
+func rootIdent(e ast.Expr) *ast.Ident {
+	for {
+		switch v := e.(type) {
+		case *ast.Ident:
+			return v
+		case *ast.SelectorExpr:
+			e = v.X
+		case *ast.IndexExpr:
+			e = v.X
+		case *ast.StarExpr:
+			e = v.X
+		case *ast.ParenExpr:
+			e = v.X
+		default:
+			return nil
+		}
+	}
+}
+
+func init() {
+	moreGens = append(moreGens, func(x *Extractor) map[string]func() string {
+		return map[string]func() string{"GlobalWrites.lean": x.genGlobalWrites}
+	})
+}
